@@ -122,7 +122,11 @@ func (w *world) Ops() []seqx.Op {
 			if s := w.streams["s1"]; s != nil && s.alive && w.streams["s3"] == nil {
 				ops = append(ops, op{C: 0, Kind: "replace", Arg: "s3", Arg2: "s1"})
 			}
-			for _, id := range []string{"s1", "s2", "s3"} {
+			// a second replacement, possibly before the first one's delayed push has run
+			if s := w.streams["s3"]; s != nil && s.alive && w.streams["s4"] == nil {
+				ops = append(ops, op{C: 0, Kind: "replace", Arg: "s4", Arg2: "s3"})
+			}
+			for _, id := range []string{"s1", "s2", "s3", "s4"} {
 				if s := w.streams[id]; s != nil && s.alive {
 					if len(s.tracks) < len(trackList) {
 						ops = append(ops, op{C: 0, Kind: "track", Arg: id})
